@@ -42,40 +42,55 @@ TECHNIQUE = (
 
 META = {
     "explanation": (
-        "Decided structurally on myst_parser/parsers/parse_html.py: (R1) _parent/_children are written only inside the "
-        "Element class hierarchy, and every addition of an item to a _children list lies on paths that have stored "
-        "item._parent = self (or proved it equal) since the item was bound; (R2) every element inserted by Tree.nest_* and "
-        "deepcopy is constructed in the same function and inserted once, and every deepcopy returns a freshly constructed "
-        "object; (R3) every handle_* callback of the stdlib HTMLParser is overridden, its argument reaches the node "
-        "constructor and the stored field unchanged, and the render template of the node class each callback maps to "
-        "re-emits exactly the delimiters the stdlib strips for that event (checked against the stdlib source: slice bounds, "
-        "compared prefixes, terminator regexes), charrefs are not converted, void_elements covers the 13 WHATWG void "
-        "elements, attribute values that the stdlib unescapes are re-escaped on output; (R4) with inplace false no mutating, iterating "
-        "or returning use in strip() can see the element itself (aliases of self are tracked through assignments and conditional "
-        "expressions; only paths consistent with inplace == False count), and constructors copy the attribute mapping; (R5) enclose(), run as a decision table "
-        "over abstract open-element stacks of depth 1-4 x every name-match pattern, pops exactly down to the innermost matching "
-        "element and nothing when none matches, the opening-tag function pushes exactly the "
-        "new element, all other nest functions leave the stack alone; (R6) no exception escapes tokenize_html or any "
-        "HTMLParser callback; (R7) walk() is pre-order in list order without duplicates and find() filters it in order "
-        "with subset / all-keys semantics (the body of the candidate loop is evaluated as a 64-row truth table over the name "
-        "predicate, classes-requested, subset and per-attribute match outcomes for 0, 1 and 2 requested attributes); (R8) every "
-        "feed() of an HtmlToAst in the package goes to a parser constructed for that call (not a cached / module-level / "
-        "memoised instance) unless feed() resets the inherited HTMLParser buffer first."
+        "Decided structurally on myst_parser/parsers/parse_html.py (sources parsed, never run). "
+        "(R1) Every store to / mutation of _parent and _children in the package lies inside the Element class hierarchy, and every "
+        "addition of an item to a children list lies on CFG paths that, since the item was bound, have stored item._parent = self "
+        "(or proved it equal, or passed the item through a one-level helper that does so). "
+        "(R2) Every element inserted by the Tree methods and by deepcopy is constructed in the same function (or by every caller of "
+        "a one-level helper) and inserted once; every deepcopy returns a freshly constructed object. "
+        "(R3) Every handle_* callback of the stdlib HTMLParser is overridden; its arguments reach the node constructor and the "
+        "stored field unchanged; the render template of the node class each callback maps to (f-strings, +, locals bound once and "
+        "hoisted module constants inlined) re-emits exactly the delimiters the stdlib strips for that event - each table row is "
+        "re-verified against the installed html/parser.py and _markupbase.py (slice bounds, compared prefixes, terminator regexes "
+        "read as re._parser trees); convert_charrefs is False on the whole path; the void table used by handle_starttag contains "
+        "the 13 WHATWG void elements plus 'param'; attributes are written as name=\"value\" for every string value (a separate "
+        "branch for None is allowed, one selected by truthiness is not); values the stdlib unescapes must be re-escaped (known "
+        "finding). "
+        "(R4) With inplace false no mutating, iterating or returning use in strip() can see the element itself: aliases of self "
+        "are tracked through assignments and conditional expressions, only paths consistent with inplace == False count; deepcopy "
+        "does not write self; the constructor copies the attribute mapping. "
+        "(R5) Writers of the open-element stack have a role derived from the callback map; the opening function, run symbolically "
+        "with Tree helpers inlined, ends as [.., top] -> [.., top, new] with new appended to top; childless-node functions leave "
+        "the stack unchanged; the closing function is run as a decision table over abstract stacks [Root, e1..] of depth 1-4 x every "
+        "name-match pattern and must pop exactly down to the innermost match, nothing otherwise; a per-name counter consulted by "
+        "the closing function must be +1 at the push and -1 for every popped element (inductive invariant counter[n] == open n). "
+        "(R6) No exception escapes tokenize_html, any overridden callback or Element.insert/__setitem__ (escape analysis; the "
+        "HTMLParser.feed entry is discharged by the parse_marked_section override catching AssertionError). "
+        "(R7) __iter__/walk are pre-order in list order, each element once; find() enumerates candidates in that order and its "
+        "candidate test - helper methods and lambdas inlined - agrees on a 192-row decision table (identifier is class/name, "
+        "matches or not, two abstract requested classes as token / substring-only / absent, 0-2 requested attributes with every "
+        "outcome, attrs None/{}) with: name and (classes is None or token-subset) and all attributes equal, yielded exactly once. "
+        "(R8) Every feed() of an HtmlToAst in the package goes to a parser constructed for that call (not cached, memoised or "
+        "module-level) unless feed() resets the inherited HTMLParser buffer first."
     ),
     "not_decided": (
         "exact round trip as a value for every well-formed document (only the structural necessary conditions above); "
-        "normalisations performed inside the stdlib tokenizer that are not invertible from callback arguments "
-        "(case of names, whitespace inside tags, quote style, value-less attributes, marked sections) - listed in the "
-        "evidence, outside the property's well-formed grammar; recursion depth of render/walk/deepcopy on very deep trees"
+        "normalisations inside the stdlib tokenizer that cannot be inverted from callback arguments (case of names, whitespace "
+        "inside tags, quote style, value-less attributes, marked sections, bogus comments) - listed in the evidence, outside the "
+        "property's well-formed grammar; implicit IndexError/TypeError of arbitrary expressions beyond the decision tables; "
+        "recursion depth of render/walk/deepcopy on very deep trees; legacy void elements other than 'param' "
+        "(basefont, bgsound, frame, keygen are not in the table today)"
     ),
     "trusted_base": [
         "CPython ast and re._parser",
         "stdlib html/parser.py and _markupbase.py as installed (parsed, not imported)",
         "collections.abc.MutableSequence mix-ins (append/extend/+= go through insert)",
-        "catalogue entry for HTMLParser.feed in the escape analysis",
+        "the engine's escape analysis incl. its discharge of HTMLParser.feed via the parse_marked_section override",
+        "the tables in the module: delimiters per event, WHATWG void elements + 'param'",
     ],
     "assumptions": [
-        "HTMLParser never reports an empty end-tag name, and tokenize_html is used with the default root name '' (so Root is never popped)",
+        "HTMLParser never reports an empty end-tag name, and tokenize_html is used with the default root name '' (so Root never matches a closing tag and is never popped)",
+        "decision tables are exhaustive for the modelled outcomes: stacks up to depth 4, two requested classes, up to two requested attributes (the code is uniform in these sizes)",
     ],
 }
 
@@ -602,6 +617,11 @@ TAG_SHAPES = {
     "selfclosing": (["<", "/>"], False),
 }
 WHATWG_VOID = ("area", "base", "br", "col", "embed", "hr", "img", "input", "link", "meta", "source", "track", "wbr")
+# further names that must stay void, one reason each
+LEGACY_VOID = {
+    "param": "void in HTML 4.01 / XHTML 1.0 and still closed immediately by the HTML parsing algorithm (start tag 'param, source, track'); "
+    "`<object><param name=..></object>` is well-formed and round-trips on the pinned tree",
+}
 
 
 def _stdlib(corpus: Corpus):
@@ -1126,17 +1146,21 @@ def r3_callbacks_and_delimiters(corpus: Corpus, rep: Report, tier: str):
         _judge_verbatim(P, rep, ems[0], "handle_startendtag", {0: "name", 1: "attrs"})
         _judge_shape(P, rep, f"{cb.fq}|self-closing form re-emits ['<', '/>']", ems[0].cls, _expected_tag_shape("selfclosing"), "handle_startendtag")
     # root
-    root = [ci for ci in P.hier if any(isinstance(n, ast.Call) and P.hier_class_named(n.func, P.tree.methods["__init__"]) is ci for n in walk_local(P.tree.methods["__init__"].node))]
+    init_fns = [P.tree.methods["__init__"]] + _tree_callees(P, P.tree.methods["__init__"])  # __init__ may delegate to clear()
+    root = []
+    for ci in P.hier:
+        if any(isinstance(n, ast.Call) and P.hier_class_named(n.func, f) is ci for f in init_fns for n in walk_local(f.node)) and ci not in root:
+            root.append(ci)
     if len(root) != 1:
         raise Unsupported("Tree.__init__ does not construct exactly one root element")
     _judge_shape(P, rep, f"{root[0].fq}|root renders its children only", root[0], ["children"], "the document root")
     # (d) void elements
     key = f"{P.parser.fq}.{void_attr}|covers the WHATWG void elements"
-    missing = [v for v in WHATWG_VOID if v not in void_set]
+    missing = [v for v in WHATWG_VOID + tuple(LEGACY_VOID) if v not in void_set]
     if missing:
         rep.violation("C16.R3", key, P.m.site(P.parser.node), f"void element(s) {missing} missing from {void_attr}: `<{missing[0]}>` is opened as a container, swallows the following siblings and is rendered with a closing tag")
     else:
-        rep.ok("C16.R3", key, P.m.site(P.parser.node), f"{len(void_set)} names, superset of the 13 WHATWG void elements")
+        rep.ok("C16.R3", key, P.m.site(P.parser.node), f"{len(void_set)} names, superset of the 13 WHATWG void elements + {sorted(LEGACY_VOID)}")
     # (e) character references are reported, not converted
     _judge_convert_charrefs(P, rep, std)
     # (f) attribute serialisation
@@ -1158,14 +1182,26 @@ def _eval_names(mod, e: ast.expr):
 
 
 def _void_elements(P: Ctx) -> tuple[str, set]:
+    """The class-level collection of names that handle_starttag tests its tag against (falls back to the one holding 'br')."""
+    cands: dict[str, set] = {}
     for st in P.parser.node.body:
-        if isinstance(st, ast.Assign) and len(st.targets) == 1 and isinstance(st.targets[0], ast.Name):
+        tgt = st.targets[0] if isinstance(st, ast.Assign) and len(st.targets) == 1 else getattr(st, "target", None)
+        val = getattr(st, "value", None)
+        if isinstance(st, (ast.Assign, ast.AnnAssign)) and isinstance(tgt, ast.Name) and val is not None:
             try:
-                v = _eval_names(P.m, st.value)
+                v = _eval_names(P.m, val)
             except Unsupported:
                 continue
-            if isinstance(v, (set, frozenset, tuple, list)) and "br" in v:
-                return st.targets[0].id, set(v)
+            if isinstance(v, (set, frozenset, tuple, list)) and all(isinstance(x, str) for x in v):
+                cands[tgt.id] = set(v)
+    hs = P.parser.methods.get("handle_starttag")
+    used = []
+    if hs is not None:
+        for n in walk_local(hs.node):
+            if isinstance(n, ast.Compare) and len(n.ops) == 1 and isinstance(n.ops[0], (ast.In, ast.NotIn)) and _is_self_attr(n.comparators[0]) and n.comparators[0].attr in cands:
+                used.append(n.comparators[0].attr)
+    for name in used + [k for k, v in cands.items() if "br" in v]:
+        return name, cands[name]
     raise AnchorMissing("HtmlToAst: class-level collection of void element names not found")
 
 
@@ -2242,7 +2278,7 @@ def _order_problem(P: Ctx, e: ast.expr, fi: FunctionInfo, seen: set) -> str | No
             return None
         seen.add(e.id)
         for b in _bindings(fi, e.id):
-            if not isinstance(b, ast.Assign):
+            if not isinstance(b, (ast.Assign, ast.AnnAssign)) or b.value is None:
                 raise Unsupported(f"{fi.fq}: binding of {e.id}")
             r = _order_problem(P, b.value, fi, seen)
             if r:
@@ -2365,173 +2401,367 @@ class _Raises(Exception):
     pass
 
 
-class _FindRun:
-    """One abstract run of the body of find()'s candidate loop.
+class _Ret(Exception):
+    def __init__(self, value):
+        self.value = value
 
-    Scenario: N (name predicate), G (classes requested), S (requested classes are a subset), attrs variant
-    ('none' | 'empty' | tuple of per-attribute match outcomes).  The statement subset is If / flag assignment /
-    the loop over the requested attributes (with break, continue, else) / all()-any() over it / yield / continue.
+
+class _Frame:
+    def __init__(self, fi: FunctionInfo, env: dict, skip: ast.AST | None = None):
+        self.fi, self.env, self.skip = fi, env, skip  # skip: subtree whose bindings are not function-level (the main loop)
+
+
+class _FindEval:
+    """Abstract evaluation of one candidate of find()'s loop.
+
+    Scenario: C (identifier is a class), N (the candidate has that tag name / is an instance), G (classes requested),
+    S (every requested class is one of the candidate's class tokens), SUB (every requested class is a substring of the raw
+    class attribute; S implies SUB), attrs variant ('none' | 'empty' | tuple of per-attribute match outcomes).
+    Values are tagged tuples; helper methods of the element and local lambdas are inlined.
     """
 
-    def __init__(self, find: FunctionInfo, cand: str, N: bool, G: bool, S: bool, attrs):
-        self.find, self.cand, self.N, self.G, self.S, self.attrs = find, cand, N, G, S, attrs
-        self.flags: dict[str, bool] = {}
+    ROLES = {"identifier": ("ident",), "classes": "CLASSES", "attrs": "ATTRS"}
+
+    def __init__(self, P: Ctx, find: FunctionInfo, main: ast.For, cand: str, C, N, G, T, U, attrs):
+        self.P, self.find, self.main, self.cand = P, find, main, cand
+        # T / U: per requested class (two abstract ones) - is it one of the element's class tokens / a substring of the raw attribute
+        self.C, self.N, self.G, self.T, self.U, self.attrs = C, N, G, T, U, attrs
+        self.S = all(T)
         self.yields = 0
-        self.cur: tuple[str, str, bool] | None = None  # key name, value name, outcome of the current attribute
-        self.s_calls: list[ast.Call] = []
-        self.n_calls: list[ast.Call] = []
-        self.outer_break = False
+        self.set_calls: list[ast.Call] = []
+        self.depth = 0
 
-    # -- the requested-attributes sequence
-    def seq(self, it: ast.expr) -> list[bool]:
-        if not (isinstance(it, ast.Call) and isinstance(it.func, ast.Attribute) and it.func.attr == "items" and not it.args):
-            raise Unsupported(f"{self.find.fq}: loop source {short(it, 40)}")
-        src = it.func.value
-        if _is_name(src, "attrs"):
+    # -- values
+    def param_value(self, name: str):
+        if name == "identifier":
+            return ("ident",)
+        if name == "classes":
+            return ("set",) if self.G else ("none",)
+        if name == "attrs":
             if self.attrs == "none":
-                raise _Raises("attrs=None (the default): `attrs.items()` raises AttributeError")
-        elif isinstance(src, ast.BoolOp) and isinstance(src.op, ast.Or) and _is_name(src.values[0], "attrs") and all(isinstance(v, ast.Dict) and not v.keys for v in src.values[1:]):
-            pass
-        else:
-            raise Unsupported(f"{self.find.fq}: loop source {short(it, 40)}")
-        return [] if self.attrs in ("none", "empty") else list(self.attrs)
+                return ("none",)
+            return ("map", () if self.attrs == "empty" else tuple(self.attrs))
+        raise Unsupported(f"{self.find.fq}: value of parameter {name}")
 
-    def is_attrs_loop(self, it: ast.expr) -> bool:
-        return "attrs" in {x.id for x in ast.walk(it) if isinstance(x, ast.Name)}
-
-    # -- conditions
-    def ev(self, t: ast.expr) -> bool:
-        if isinstance(t, ast.Constant) and isinstance(t.value, bool):
-            return t.value
-        if isinstance(t, ast.BoolOp):
-            if isinstance(t.op, ast.And):
-                return all(self.ev(v) for v in t.values)  # generator: short circuit
-            return any(self.ev(v) for v in t.values)
-        if isinstance(t, ast.UnaryOp) and isinstance(t.op, ast.Not):
-            return not self.ev(t.operand)
-        if isinstance(t, ast.Name):
-            if t.id in self.flags:
-                return self.flags[t.id]
-            if t.id == "classes":
-                return self.G
-            if t.id == "attrs":
-                return self.attrs not in ("none", "empty")
-            raise Unsupported(f"{self.find.fq}: condition on {t.id}")
-        if isinstance(t, ast.Compare) and len(t.ops) == 1:
-            l, op, r = t.left, t.ops[0], t.comparators[0]
-            if isinstance(r, ast.Constant) and r.value is None and isinstance(op, (ast.Is, ast.IsNot)) and isinstance(l, ast.Name) and l.id in ("classes", "attrs"):
-                v = self.G if l.id == "classes" else self.attrs != "none"
-                return v if isinstance(op, ast.IsNot) else not v
-            if isinstance(r, ast.Constant) and isinstance(r.value, bool) and isinstance(op, (ast.Is, ast.IsNot, ast.Eq, ast.NotEq)) and isinstance(l, (ast.Call, ast.Name, ast.BoolOp, ast.UnaryOp)):
-                lv = self.ev(l)
-                return (lv == r.value) if isinstance(op, (ast.Is, ast.Eq)) else (lv != r.value)
-            if self.cur is not None and isinstance(op, (ast.Eq, ast.NotEq)):
-                k, v, m = self.cur
-                sides = [l, r]
-                val = [x for x in sides if _is_name(x, v)]
-                got = [x for x in sides if self._is_attr_read(x, k)]
-                if len(val) == 1 and len(got) == 1:
-                    return m if isinstance(op, ast.Eq) else not m
-        if isinstance(t, ast.Call):
-            f = t.func
-            if isinstance(f, ast.Name) and len(t.args) == 1 and _is_name(t.args[0], self.cand) and not t.keywords and f.id not in ("all", "any"):
-                self.n_calls.append(t)
-                return self.N
-            if isinstance(f, ast.Attribute) and _is_name(f.value, "classes") and len(t.args) == 1 and self.cand in {x.id for x in ast.walk(t.args[0]) if isinstance(x, ast.Name)}:
-                if not self.G:
-                    raise _Raises(f"classes=None (the default): `{short(t, 40)}` raises AttributeError")
-                self.s_calls.append(t)
-                return self.S
-            if isinstance(f, ast.Name) and f.id in ("all", "any") and len(t.args) == 1 and isinstance(t.args[0], (ast.GeneratorExp, ast.ListComp)) and len(t.args[0].generators) == 1:
-                gen = t.args[0].generators[0]
-                if self.is_attrs_loop(gen.iter) and isinstance(gen.target, ast.Tuple) and len(gen.target.elts) == 2 and all(isinstance(e, ast.Name) for e in gen.target.elts) and not gen.ifs:
-                    k, v = (e.id for e in gen.target.elts)
-                    saved = self.cur
-                    res = []
-                    for m in self.seq(gen.iter):
-                        self.cur = (k, v, m)
-                        res.append(self.ev(t.args[0].elt))
-                    self.cur = saved
-                    return all(res) if f.id == "all" else any(res)
-        raise Unsupported(f"{self.find.fq}: condition `{short(t, 50)}`")
-
-    def _is_attr_read(self, e: ast.expr, k: str) -> bool:
-        c = self.cand
-        if isinstance(e, ast.Subscript) and _is_name(e.slice, k) and isinstance(e.value, ast.Attribute) and e.value.attr == "attrs" and _is_name(e.value.value, c):
+    @staticmethod
+    def truth(v) -> bool:
+        k = v[0]
+        if k == "bool":
+            return v[1]
+        if k == "none":
+            return False
+        if k == "const":
+            return bool(v[1])
+        if k == "map":
+            return len(v[1]) > 0
+        if k == "set0":
+            return False
+        if k in ("set", "cand", "lambda", "ident", "attrsobj"):
             return True
-        if isinstance(e, ast.Call) and isinstance(e.func, ast.Attribute) and e.func.attr == "get" and len(e.args) == 1 and _is_name(e.args[0], k):
-            v = e.func.value
-            return isinstance(v, ast.Attribute) and v.attr == "attrs" and _is_name(v.value, c)
-        return False
+        raise Unsupported(f"truthiness of {k}")
 
-    # -- statements: returns None | 'break' | 'continue' | 'return'
-    def block(self, stmts) -> str | None:
+    def lookup(self, name: str, fr: _Frame):
+        if name in fr.env:
+            return fr.env[name]
+        fi = fr.fi
+        binds = [b for b in _bindings(fi, name) if b == "ENTRY" or fr.skip is None or not any(b is x for x in ast.walk(fr.skip))]
+        if "ENTRY" in binds:
+            if fi.fq != self.find.fq:
+                raise Unsupported(f"{fi.fq}: parameter {name} not bound")
+            v = self.param_value(name)
+            fr.env[name] = v
+            for b in binds:
+                if b != "ENTRY":
+                    if not isinstance(b, (ast.Assign, ast.AnnAssign)) or b.value is None:
+                        raise Unsupported(f"{fi.fq}: rebinding of {name}")
+                    fr.env[name] = self.ev(b.value, fr)
+            return fr.env[name]
+        vals = [b for b in binds if isinstance(b, (ast.Assign, ast.AnnAssign)) and b.value is not None]
+        if len(vals) == 1 and len(binds) == 1:
+            fr.env[name] = ("pending",)
+            fr.env[name] = self.ev(vals[0].value, fr)
+            return fr.env[name]
+        raise Unsupported(f"{fi.fq}: name {name}")
+
+    # -- expressions
+    def ev(self, e: ast.expr, fr: _Frame):
+        P = self.P
+        if isinstance(e, ast.Constant):
+            if e.value is None:
+                return ("none",)
+            if isinstance(e.value, bool):
+                return ("bool", e.value)
+            return ("const", e.value)
+        if isinstance(e, ast.Name):
+            return self.lookup(e.id, fr)
+        if isinstance(e, ast.Lambda):
+            return ("lambda", e, fr)
+        if isinstance(e, ast.Dict) and not e.keys:
+            return ("map", ())
+        if isinstance(e, (ast.List, ast.Tuple, ast.Set)) and not e.elts:
+            return ("set0",)  # an empty collection of requested classes
+        if isinstance(e, ast.BoolOp):
+            v = None
+            for x in e.values:
+                v = self.ev(x, fr)
+                if self.truth(v) != isinstance(e.op, ast.And):
+                    return v
+            return v
+        if isinstance(e, ast.UnaryOp) and isinstance(e.op, ast.Not):
+            return ("bool", not self.truth(self.ev(e.operand, fr)))
+        if isinstance(e, ast.IfExp):
+            return self.ev(e.body if self.truth(self.ev(e.test, fr)) else e.orelse, fr)
+        if isinstance(e, ast.Attribute):
+            base = self.ev(e.value, fr)
+            if base[0] == "cand" and e.attr == "name":
+                return ("candname",)
+            if base[0] == "cand" and e.attr == "attrs":
+                return ("attrsobj",)
+            if base[0] == "attrsobj" and e.attr == "classes":
+                return ("tokens",)
+            raise Unsupported(f"{fr.fi.fq}: attribute `{short(e, 40)}`")
+        if isinstance(e, ast.Subscript) and not isinstance(e.slice, ast.Slice):
+            base, k = self.ev(e.value, fr), self.ev(e.slice, fr)
+            if base[0] == "attrsobj":
+                return self.attr_read(k, fr)
+            raise Unsupported(f"{fr.fi.fq}: subscript `{short(e, 40)}`")
+        if isinstance(e, ast.Compare) and len(e.ops) == 1:
+            return self.compare(self.ev(e.left, fr), e.ops[0], self.ev(e.comparators[0], fr), e, fr)
+        if isinstance(e, ast.Call):
+            return self.call(e, fr)
+        raise Unsupported(f"{fr.fi.fq}: expression `{short(e, 50)}`")
+
+    def attr_read(self, k, fr):
+        if k == ("const", "class"):
+            return ("raw",)
+        if k[0] == "key":
+            return ("attrval", k[1])
+        raise Unsupported(f"{fr.fi.fq}: attribute key {k}")
+
+    def compare(self, l, op, r, node, fr):
+        neg = isinstance(op, (ast.NotEq, ast.IsNot, ast.NotIn))
+        res = None
+        if isinstance(op, (ast.Is, ast.IsNot)) and (l[0] == "none" or r[0] == "none"):
+            res = l[0] == r[0] == "none"
+        elif isinstance(op, (ast.Is, ast.IsNot, ast.Eq, ast.NotEq)) and {l[0], r[0]} <= {"bool", "const"}:
+            res = l[1] == r[1]
+        elif isinstance(op, (ast.Eq, ast.NotEq)):
+            pair = {l[0], r[0]}
+            if pair == {"candname", "ident"}:
+                res = False if self.C else self.N  # a tag name never equals a class object
+            elif pair == {"attrval", "val"} and l[1] == r[1]:
+                res = self.cur_outcome(l[1])
+            elif pair == {"map", "const"} or pair == {"set", "const"}:
+                raise Unsupported(f"{fr.fi.fq}: `{short(node, 40)}`")
+        elif isinstance(op, (ast.In, ast.NotIn)) and l[0] == "req":
+            if r[0] == "tokens":
+                res = self.T[l[1]]
+            elif r[0] == "raw":
+                res = self.U[l[1]]
+        elif isinstance(op, (ast.LtE,)) and l[0] == "set" and r[0] == "tokens":
+            res = self.S
+        if res is None:
+            raise Unsupported(f"{fr.fi.fq}: comparison `{short(node, 50)}`")
+        return ("bool", res != neg)
+
+    def cur_outcome(self, i: int) -> bool:
+        return self.attrs[i]
+
+    def iterate(self, v, fr):
+        """Items an iterable value yields (as values to bind to the loop target)."""
+        if v[0] == "items":
+            return [("tuple", (("key", i), ("val", i))) for i in range(len(v[1]))]
+        if v[0] == "set":
+            return [("req", 0), ("req", 1)]  # two abstract requested classes
+        if v[0] == "set0":
+            return []
+        if v[0] == "none":
+            raise _Raises("TypeError: iteration over None")
+        raise Unsupported(f"{fr.fi.fq}: iteration over {v[0]}")
+
+    def bind(self, tgt: ast.expr, v, fr):
+        if isinstance(tgt, ast.Name):
+            fr.env[tgt.id] = v
+        elif isinstance(tgt, ast.Tuple) and v[0] == "tuple" and len(v[1]) == len(tgt.elts):
+            for t, x in zip(tgt.elts, v[1]):
+                self.bind(t, x, fr)
+        else:
+            raise Unsupported(f"{fr.fi.fq}: loop target {short(tgt, 30)}")
+
+    def call(self, e: ast.Call, fr: _Frame):
+        P = self.P
+        d = dotted(e.func) or ""
+        last = d.rsplit(".", 1)[-1]
+        f = e.func
+        if last in ("all", "any") and isinstance(f, ast.Name) and len(e.args) == 1 and isinstance(e.args[0], (ast.GeneratorExp, ast.ListComp)) and len(e.args[0].generators) == 1:
+            gen = e.args[0].generators[0]
+            res = []
+            for item in self.iterate(self.ev(gen.iter, fr), fr):
+                self.bind(gen.target, item, fr)
+                if all(self.truth(self.ev(c, fr)) for c in gen.ifs):
+                    res.append(self.truth(self.ev(e.args[0].elt, fr)))
+            return ("bool", all(res) if last == "all" else any(res))
+        if d in ("inspect.isclass", "isclass") and len(e.args) == 1 and self.ev(e.args[0], fr)[0] == "ident":
+            return ("bool", self.C)
+        if d == "isinstance" and len(e.args) == 2:
+            a0, a1 = self.ev(e.args[0], fr), self.ev(e.args[1], fr)
+            if a0[0] == "cand" and a1[0] == "ident":
+                if not self.C:
+                    raise _Raises("TypeError: isinstance() with a tag-name string as second argument")
+                return ("bool", self.N)
+            if a1[0] == "ident" and a0[0] == "ident":
+                raise Unsupported(f"{fr.fi.fq}: `{short(e, 40)}`")
+        if d == "isinstance" and len(e.args) == 2 and self.ev(e.args[0], fr)[0] == "ident" and unparse(e.args[1]) in ("type", "str"):
+            return ("bool", self.C if unparse(e.args[1]) == "type" else not self.C)
+        if isinstance(f, ast.Name) and last in ("set", "frozenset", "list", "tuple", "sorted") and len(e.args) == 1:
+            v = self.ev(e.args[0], fr)
+            if v[0] in ("set", "tokens", "set0"):
+                return v
+            if not e.args:
+                return ("set0",)
+            if v[0] == "none":
+                raise _Raises("TypeError: set(None)")
+        if isinstance(f, ast.Name) and last in ("set", "frozenset", "list", "tuple") and not e.args and not e.keywords:
+            return ("set0",)
+        if isinstance(f, ast.Name) and last == "dict" and len(e.args) <= 1:
+            v = self.ev(e.args[0], fr) if e.args else ("map", ())
+            if v[0] == "map":
+                return v
+        if isinstance(f, ast.Attribute):
+            recv = self.ev(f.value, fr)
+            m = f.attr
+            if recv[0] == "none":
+                raise _Raises(f"AttributeError: None has no attribute {m} (`{short(e, 40)}` with the default None)")
+            if recv[0] == "map" and m == "items" and not e.args:
+                return ("items", recv[1])
+            if recv[0] == "set0" and m == "issubset" and len(e.args) == 1:
+                return ("bool", True)
+            if recv[0] == "set" and len(e.args) == 1:
+                arg = self.ev(e.args[0], fr)
+                if arg[0] == "tokens":
+                    self.set_calls.append(e)
+                    return ("bool", self.S)
+            if recv[0] == "attrsobj" and m == "get" and 1 <= len(e.args) <= 2:
+                return self.attr_read(self.ev(e.args[0], fr), fr)
+            if recv[0] == "raw" and m == "split" and not e.args:
+                return ("tokens",)
+            if recv[0] == "cand":
+                meth = P.c.lookup_method(P.element, m)
+                if meth is not None and not meth.is_generator():
+                    return self.inline(meth, e, fr, recv)
+        if isinstance(f, ast.Name):
+            fv = self.lookup(f.id, fr) if (f.id in fr.env or _bindings(fr.fi, f.id)) else None
+            if fv is not None and fv[0] == "lambda":
+                lam, lfr = fv[1], fv[2]
+                params = [a.arg for a in lam.args.args]
+                if len(params) != len(e.args) or e.keywords:
+                    raise Unsupported(f"{fr.fi.fq}: call `{short(e, 40)}`")
+                env = dict(lfr.env)
+                for p_, a_ in zip(params, e.args):
+                    env[p_] = self.ev(a_, fr)
+                return self.ev(lam.body, _Frame(lfr.fi, env, lfr.skip))
+        raise Unsupported(f"{fr.fi.fq}: call `{short(e, 50)}`")
+
+    def inline(self, meth: FunctionInfo, call: ast.Call, fr: _Frame, selfval):
+        self.depth += 1
+        if self.depth > 3:
+            raise Unsupported(f"{meth.fq}: helper nesting too deep")
+        params = [p for p in meth.params if p != "self"]
+        env = {"self": selfval}
+        for i, p_ in enumerate(params):
+            arg = call.args[i] if i < len(call.args) else next((k.value for k in call.keywords if k.arg == p_), None)
+            if arg is None:
+                d = _param_default(meth, p_)
+                if d is None:
+                    raise Unsupported(f"{meth.fq}: no argument for {p_}")
+                env[p_] = self.ev(d, fr)
+            else:
+                env[p_] = self.ev(arg, fr)
+        nf = _Frame(meth, env)
+        try:
+            self.block(meth.node.body, nf)
+            out = ("none",)
+        except _Ret as r:
+            out = r.value
+        self.depth -= 1
+        return out
+
+    # -- statements: None | 'break' | 'continue'
+    def block(self, stmts, fr) -> str | None:
         for st in stmts:
-            sig = self.stmt(st)
+            sig = self.stmt(st, fr)
             if sig:
                 return sig
         return None
 
-    def stmt(self, st: ast.stmt) -> str | None:
+    def stmt(self, st: ast.stmt, fr: _Frame) -> str | None:
         if isinstance(st, ast.Pass) or (isinstance(st, ast.Expr) and isinstance(st.value, ast.Constant)):
             return None
         if isinstance(st, ast.If):
-            return self.block(st.body if self.ev(st.test) else st.orelse)
-        if isinstance(st, ast.Assign) and len(st.targets) == 1 and isinstance(st.targets[0], ast.Name):
-            self.flags[st.targets[0].id] = self.ev(st.value)
+            return self.block(st.body if self.truth(self.ev(st.test, fr)) else st.orelse, fr)
+        if isinstance(st, (ast.Assign, ast.AnnAssign)):
+            tgt = st.targets[0] if isinstance(st, ast.Assign) and len(st.targets) == 1 else getattr(st, "target", None)
+            if isinstance(tgt, ast.Name) and st.value is not None:
+                fr.env[tgt.id] = self.ev(st.value, fr)
+                return None
+        if isinstance(st, ast.AugAssign) and isinstance(st.target, ast.Name) and isinstance(st.op, (ast.BitAnd, ast.BitOr)):
+            cur, v = self.truth(self.lookup(st.target.id, fr)), self.truth(self.ev(st.value, fr))
+            fr.env[st.target.id] = ("bool", (cur and v) if isinstance(st.op, ast.BitAnd) else (cur or v))
             return None
-        if isinstance(st, ast.AugAssign) and isinstance(st.target, ast.Name) and st.target.id in self.flags and isinstance(st.op, (ast.BitAnd, ast.BitOr)):
-            v = self.ev(st.value)
-            self.flags[st.target.id] = (self.flags[st.target.id] and v) if isinstance(st.op, ast.BitAnd) else (self.flags[st.target.id] or v)
-            return None
-        if isinstance(st, ast.Expr) and isinstance(st.value, ast.Yield) and _is_name(st.value.value, self.cand):
+        if isinstance(st, ast.Expr) and isinstance(st.value, ast.Yield) and fr.fi.fq == self.find.fq and _is_name(st.value.value, self.cand):
             self.yields += 1
             return None
         if isinstance(st, ast.Continue):
             return "continue"
         if isinstance(st, ast.Break):
             return "break"
-        if isinstance(st, ast.Return) and st.value is None:
-            return "return"
-        if isinstance(st, ast.For) and self.is_attrs_loop(st.iter):
-            if not (isinstance(st.target, ast.Tuple) and len(st.target.elts) == 2 and all(isinstance(e, ast.Name) for e in st.target.elts)):
-                raise Unsupported(f"{self.find.fq}: loop target {short(st.target, 30)}")
-            k, v = (e.id for e in st.target.elts)
+        if isinstance(st, ast.Return):
+            raise _Ret(self.ev(st.value, fr) if st.value is not None else ("none",))
+        if isinstance(st, ast.For):
             broke = False
-            saved = self.cur
-            for m in self.seq(st.iter):
-                self.cur = (k, v, m)
-                sig = self.block(st.body)
+            for item in self.iterate(self.ev(st.iter, fr), fr):
+                self.bind(st.target, item, fr)
+                sig = self.block(st.body, fr)
                 if sig == "break":
                     broke = True
                     break
-                if sig == "return":
-                    self.cur = saved
-                    return sig
-            self.cur = saved
-            if not broke:
-                return self.block(st.orelse)
-            return None
-        raise Unsupported(f"{self.find.fq}: statement `{short(st, 50)}` in the candidate loop")
+            return None if broke else self.block(st.orelse, fr)
+        raise Unsupported(f"{fr.fi.fq}: statement `{short(st, 50)}` in the candidate test")
+
+    def run(self) -> str | None:
+        fr = _Frame(self.find, {self.cand: ("cand",)}, self.main)
+        try:
+            return self.block(self.main.body, fr)
+        except _Ret:
+            return "return"
 
 
 def _find_scenarios():
     variants = ["none", "empty", (True,), (False,), (True, True), (True, False), (False, True), (False, False)]
-    for N in (True, False):
-        for G in (True, False):
-            for S in ((True, False) if G else (True,)):
+    TT, TF, FF = (True, True), (True, False), (False, False)
+    for C in (False, True):
+        for N in (True, False):
+            for G, T, U in ((False, TT, TT), (True, TT, TT), (True, TF, TT), (True, TF, TF), (True, FF, TT), (True, FF, FF)):
                 for a in variants:
-                    yield N, G, S, a
+                    yield C, N, G, T, U, a
 
 
-def _scenario_text(N, G, S, a) -> str:
-    cls = "no classes requested" if not G else ("requested classes are a subset of the element's" if S else "a requested class is missing on the element")
+def _scenario_text(C, N, G, T, U, a) -> str:
+    idt = "identifier is an element class" if C else "identifier is a tag name"
+    if not G:
+        cls = "no classes requested"
+    elif all(T):
+        cls = "both requested classes are among the element's class tokens"
+    else:
+        cls = f"{'one' if any(T) else 'none'} of the two requested classes is among the element's class tokens"
+        if all(U):
+            cls += ", the other only as a substring of the raw class attribute (e.g. 'note' in class=\"notebook\")" if any(T) else ", both occur as substrings of the raw class attribute (e.g. 'note' in class=\"notebook\")"
     att = "no attrs requested" if a in ("none", "empty") else f"requested attributes match = {list(a)}"
-    return f"name {'matches' if N else 'does not match'}, {cls}, {att}"
+    return f"{idt} and {'matches' if N else 'does not match'}, {cls}, {att}"
 
 
 def _judge_find_filters(P: Ctx, rep: Report, find: FunctionInfo, main: ast.For, cand: str) -> None:
-    """Truth table of the candidate loop body against: yield once iff name and (classes is None or subset) and all attrs match."""
+    """Decision table of the candidate test against: yield once iff name and (classes is None or token-subset) and all attrs match."""
     keys = {
         "classes": f"{find.fq}|classes filter: requested classes are a subset of the element's",
         "attrs": f"{find.fq}|attrs filter: every requested attribute must match",
@@ -2539,69 +2769,42 @@ def _judge_find_filters(P: Ctx, rep: Report, find: FunctionInfo, main: ast.For, 
     }
     site = find.module.site(main)
     bad: dict[str, str] = {}
-    s_calls: dict[int, ast.Call] = {}
-    n_calls: dict[int, ast.Call] = {}
+    set_calls: dict[int, ast.Call] = {}
     results: dict[tuple, tuple[bool, str, int]] = {}
-    for N, G, S, a in _find_scenarios():
-        run = _FindRun(find, cand, N, G, S, a)
-        want = 1 if (N and (not G or S) and (a in ("none", "empty") or all(a))) else 0
+    for sc in _find_scenarios():
+        C, N, G, T, U, a = sc
+        run = _FindEval(P, find, main, cand, C, N, G, T, U, a)
+        want = 1 if (N and (not G or all(T)) and (a in ("none", "empty") or all(a))) else 0
         try:
-            sig = run.block(main.body)
+            sig = run.run()
             got = "the element is yielded" + (f" {run.yields} times" if run.yields > 1 else "") if run.yields else "the element is not yielded"
             wrong = run.yields != want
-            if sig == "break":
-                wrong, got = True, "the candidate loop is left (`break`): later matching elements are never returned"
+            if sig in ("break", "return"):
+                wrong, got = True, "the candidate loop is left: later matching elements are never returned"
         except _Raises as e:
             wrong, got = True, str(e)
-        for c in run.s_calls:
-            s_calls[id(c)] = c
-        for c in run.n_calls:
-            n_calls[id(c)] = c
-        results[(N, G, S, a)] = (wrong, got, want)
-    for (N, G, S, a), (wrong, got, want) in results.items():
+        for c in run.set_calls:
+            set_calls[id(c)] = c
+        results[sc] = (wrong, got, want)
+    for sc, (wrong, got, want) in results.items():
         if not wrong:
             continue
+        C, N, G, T, U, a = sc
         if not N:
             which = "name"
-        elif results[(N, False, True, a)][0]:
+        elif results[(C, N, False, (True, True), (True, True), a)][0]:
             which = "attrs"  # wrong even when no classes are requested
         else:
             which = "classes"
-        bad.setdefault(which, f"when {_scenario_text(N, G, S, a)}: {got} (expected: {'yielded once' if want else 'not yielded'})")
-    # the set test itself
-    if not s_calls:
-        bad.setdefault("classes", "the requested classes are never compared with the element's classes")
-    for c in s_calls.values():
-        if not any(isinstance(x, ast.Attribute) and x.attr == "classes" for x in ast.walk(c.args[0])):
-            raise Unsupported(f"{find.fq}: `{short(c, 50)}` does not read the candidate's classes")
+        bad.setdefault(which, f"when {_scenario_text(*sc)}: {got} (expected: {'yielded once' if want else 'not yielded'})")
+    for c in set_calls.values():
         if c.func.attr != "issubset":
             bad["classes"] = f"`{short(c, 50)}`: the class filter must accept an element iff every requested class is among its classes (issubset); `{c.func.attr}` accepts a different set of elements"
-    # the name predicate
-    if not n_calls:
-        bad.setdefault("name", "no predicate on the candidate's name / class guards the yield")
-    for c in n_calls.values():
-        lams = P.g._lambda_bindings(find).get(c.func.id) or []
-        if not lams:
-            raise Unsupported(f"{find.fq}: predicate {c.func.id} is not a local lambda")
-        kinds = set()
-        for lam in lams:
-            b = lam.node.body
-            p0 = lam.params[0] if lam.params else None
-            if isinstance(b, ast.Compare) and len(b.ops) == 1 and {unparse(b.left), unparse(b.comparators[0])} == {f"{p0}.name", "identifier"}:
-                kinds.add("name")
-                if not isinstance(b.ops[0], ast.Eq):
-                    bad["name"] = f"name predicate `{short(b, 40)}` does not test equality with the requested tag name"
-            elif isinstance(b, ast.Call) and dotted(b.func) == "isinstance" and [unparse(x) for x in b.args] == [p0, "identifier"]:
-                kinds.add("isinstance")
-            else:
-                raise Unsupported(f"{find.fq}: predicate `{short(b, 50)}`")
-        if "name" not in kinds:
-            raise Unsupported(f"{find.fq}: no tag-name predicate")
     for which, key in keys.items():
         if which in bad:
             rep.violation("C16.R7", key, site, f"find(): {bad[which]}")
         else:
-            rep.ok("C16.R7", key, site, "64-row truth table of the candidate loop agrees with: name and (classes is None or subset) and all requested attributes equal")
+            rep.ok("C16.R7", key, site, f"{len(results)}-row decision table of the candidate test agrees with: name and (classes is None or token-subset) and all requested attributes equal")
 
 
 # ---------------------------------------------------------------------------
@@ -2827,6 +3030,8 @@ def mutants(corpus: Corpus):
     if vs is not None and isinstance(vs.value, ast.Set):
         keep = [repr(e.value) for e in vs.value.elts if isinstance(e, ast.Constant) and e.value != "wbr"]
         add("c16-void-set-loses-wbr", "C16.R3", vs.value, "{" + ", ".join(keep) + "}", "void_elements")
+        keep2 = [repr(e.value) for e in vs.value.elts if isinstance(e, ast.Constant) and e.value != "param"]
+        add("c16-void-set-loses-param", "C16.R3", vs.value, "{" + ", ".join(keep2) + "}", "void_elements")
     else:
         out.append(("c16-void-set-loses-wbr", "void_elements is not a set literal"))
     c = find_node(H["__init__"], lambda n: isinstance(n, ast.Call) and dotted(n.func) == "super().__init__") if "__init__" in H else None
@@ -2962,6 +3167,13 @@ def mutants(corpus: Corpus):
     f = E["find"]
     c = find_node(f, lambda n: isinstance(n, ast.Attribute) and unparse(n) == "classes.issubset")
     add("c16-find-classes-superset", "C16.R7", c, "classes.issuperset", "classes filter")
+    sc_ = find_node(f, lambda n: isinstance(n, ast.Call) and unparse(n.func) == "classes.issubset")
+    if sc_ is not None and sc_.args:
+        cnd_ = unparse(sc_.args[0]).split(".")[0]
+        add("c16-find-classes-substring-of-raw-attribute", "C16.R7", sc_, f'all(c_ in {cnd_}.attrs["class"] for c_ in classes)', "classes filter")
+        add("c16-find-classes-any-instead-of-all", "C16.R7", sc_, f"any(c_ in {unparse(sc_.args[0])} for c_ in classes)", "classes filter")
+    else:
+        out.append(("c16-find-classes-substring-of-raw-attribute", "find() no longer calls classes.issubset(...)"))
     b = find_node(f, lambda n: isinstance(n, ast.Break))
     add("c16-find-attrs-mismatch-continues", "C16.R7", b, "continue", "attrs filter")
     c = find_node(f, lambda n: isinstance(n, ast.Call) and unparse(n) == "self.walk()")
